@@ -7,7 +7,7 @@
 """
 import math, random
 import numpy as np
-from mininec.mininec import Mininec, Wire, ideal_ground, Excitation
+from mininec.mininec import Mininec, Wire, ideal_ground, Excitation, Medium
 from . import report as R
 
 # generic positions: no three collinear, pairwise >= 0.9 apart, z >= 1 for
@@ -52,24 +52,27 @@ class Concretiser:
         return tuple(b[k] + d[k] for k in range(3))
 
 
-def build_wires(inp, conc=None, radius=0.001):
+def build_wires(inp, conc=None, radius=0.001, vary_radius=False):
     conc = conc or Concretiser()
     seen = set()
     ws = []
-    for o in inp:
+    for k, o in enumerate(inp):
+        r_k = radius * (1.0 + 0.5 * (k % 3)) if vary_radius else radius
         ends = []
         for pid in (o['p1'], o['p2']):
             ends.append(conc.point(pid, pid not in seen))
             seen.add(pid)
         tag = o['tag'] or None
-        ws.append(Wire(o['ns'], *ends[0], *ends[1], radius * conc.scale,
+        ws.append(Wire(o['ns'], *ends[0], *ends[1], r_k * conc.scale,
                        tag=tag))
     return ws
 
 
-def build(inp, ground, conc=None, f=10.0):
-    ws = build_wires(inp, conc)
-    media = [ideal_ground] if ground else None
+def build(inp, ground, conc=None, f=10.0, vary_radius=False, real_ground=False):
+    ws = build_wires(inp, conc, vary_radius=vary_radius)
+    media = None
+    if ground:
+        media = [Medium(13.0, 0.005)] if real_ground else [ideal_ground]
     return Mininec(f, ws, media=media)
 
 
